@@ -171,7 +171,7 @@ pub const FILE_KINDS: &[(&str, Option<&[u8]>)] = &[
     ("large", None), // filled in by file_bytes
     // two programs of the same shape up to a token with child lines, with different child lines (state that a
     // worker keeps from one file to the next and keys by position would be served to the wrong file)
-    ("undecodable-after-non-ascii", Some(b"x := '\xc3\xa9\xc3\xa9\xc3\xa9\xc3\xa9\xc3\xa9\xc3\xa9\xc3\xa9\xc3\xa9\xc3\xa9\xc3\xa9\xc3\xa9\xc3\xa9\xc3\xa9' ; //\xff\n")),
+    ("undecodable-after-non-ascii", Some(b"x := '\xc3\xa9\xc3\xa9\xc3\xa9\xc3\xa9\xc3\xa9\xc3\xa9\xc3\xa9\xc3\xa9\xc3\xa9\xc3\xa9\xc3\xa9\xc3\xa9\xc3\xa9' ;//\xff\n")),
     ("anon-short", Some(b"procedure Run;\nbegin\n  Register(\n      procedure\n      begin\n        Call(Alpha, Beta, Gamma, Delta);\n      end);\nend;\n")),
     ("anon-long", Some(b"procedure Run;\nbegin\n  Register(\n      procedure\n      begin\n        Call(AlphaAlphaAlphaAlpha, BetaBetaBetaBetaBeta, GammaGammaGammaGamma, DeltaDeltaDeltaDelta);\n      end);\nend;\n")),
 ];
